@@ -22,6 +22,10 @@ Laws == /\ \A p \in All, a \in Q :
               /\ GX(a, p) = (IF Commute(p, XOn(a)) THEN p ELSE Neg(p))   \* Paulis flip signs of what anticommutes
               /\ GZ(a, p) = (IF Commute(p, ZOn(a)) THEN p ELSE Neg(p))
               /\ GS(a, GS(a, GS(a, p))) = GSdg(a, p)
+              (* sx: X -> X, Z -> -Y, Y -> Z;  sx sx = x;  sxdg inverts sx *)
+              /\ Apply(<<"sx", a, -1>>, Apply(<<"sx", a, -1>>, p)) = GX(a, p)
+              /\ Apply(<<"sxdg", a, -1>>, Apply(<<"sx", a, -1>>, p)) = p
+              /\ Apply(<<"sx", a, -1>>, XOn(a)) = XOn(a) /\ Apply(<<"sx", a, -1>>, ZOn(a)) = Mk(P2(a), P2(a), 1)
         /\ \A p \in All, pr \in PP :
               LET a == pr[1] b == pr[2] IN
               /\ GCX(a, b, GCX(a, b, p)) = p
@@ -30,6 +34,10 @@ Laws == /\ \A p \in All, a \in Q :
               /\ GCX(a, b, p) = GH(b, GCZ(a, b, GH(b, p)))
               /\ GSW(a, b, p) = GCX(a, b, GCX(b, a, GCX(a, b, p)))
               /\ GSW(a, b, p) = GSW(b, a, p) /\ GSW(a, b, GSW(a, b, p)) = p
+              (* cy is an involution, fixes Z_control and Y_target, maps X_control to X_c Y_t *)
+              /\ Apply(<<"cy", a, b>>, Apply(<<"cy", a, b>>, p)) = p
+              /\ Apply(<<"cy", a, b>>, ZOn(a)) = ZOn(a) /\ Apply(<<"cy", a, b>>, Mk(P2(b), P2(b), 0)) = Mk(P2(b), P2(b), 0)
+              /\ Apply(<<"cy", a, b>>, XOn(a)) = Mk(P2(a) + P2(b), P2(b), 0)
         (* conjugation is a group automorphism: respects commutation and products *)
         /\ \A p \in All, q \in All :
               /\ \A a \in Q : Commute(GH(a, p), GH(a, q)) = Commute(p, q)
